@@ -17,55 +17,64 @@ open Gen
     offsets) is the position in `goTypes` of the type of the k-th typed field in declaration order, then of the
     input types of the methods, then of their output types. For every file, no side condition. -/
 theorem C19_depIdx_points_at_declared_type (enums msgs : List String) (fieldDeps : List (List String))
-    (methods : List (String × String)) :
-    let T := typeTables enums msgs fieldDeps methods
-    T.deps.length = (allDeps fieldDeps methods).length ∧
-    ∀ k (h : k < (allDeps fieldDeps methods).length),
-      T.goTypes[T.deps.getD k 0]? = some (allDeps fieldDeps methods)[k] := by
+    (exts : List (String × Option String)) (methods : List (String × String)) :
+    let T := typeTables enums msgs fieldDeps exts methods
+    T.deps.length = (allDeps fieldDeps exts methods).length ∧
+    ∀ k (h : k < (allDeps fieldDeps exts methods).length),
+      T.goTypes[T.deps.getD k 0]? = some (allDeps fieldDeps exts methods)[k] := by
   intro T
   have h0 : TypeTab.Good ((enums ++ msgs).foldl TypeTab.decl {}) [] := by
     obtain ⟨hn, hd⟩ := foldl_decl_nodup (enums ++ msgs) {} (by simp)
     exact ⟨hn, by rw [hd]; rfl, fun k h => by simp at h⟩
   have h1 := foldl_dep_good fieldDeps.flatten _ _ h0
-  have h2 := foldl_dep_good (methods.map (·.1)) _ _ h1
+  have h1a := foldl_dep_good (extendees exts) _ _ h1
+  have h1b := foldl_dep_good (extTypes exts) _ _ h1a
+  have h2 := foldl_dep_good (methods.map (·.1)) _ _ h1b
   have h3 := foldl_dep_good (methods.map (·.2)) _ _ h2
   simp only [List.nil_append] at h3
   exact ⟨h3.2.1, h3.2.2⟩
 
 /-- No type has two rows. -/
-theorem C19_goTypes_nodup (enums msgs : List String) (fieldDeps : List (List String)) (methods : List (String × String)) :
-    (typeTables enums msgs fieldDeps methods).goTypes.Nodup := by
+theorem C19_goTypes_nodup (enums msgs : List String) (fieldDeps : List (List String)) (exts : List (String × Option String)) (methods : List (String × String)) :
+    (typeTables enums msgs fieldDeps exts methods).goTypes.Nodup := by
   have h0 : TypeTab.Good ((enums ++ msgs).foldl TypeTab.decl {}) [] := by
     obtain ⟨hn, hd⟩ := foldl_decl_nodup (enums ++ msgs) {} (by simp)
     exact ⟨hn, by rw [hd]; rfl, fun k h => by simp at h⟩
   exact (foldl_dep_good (methods.map (·.2)) _ _ (foldl_dep_good (methods.map (·.1)) _ _
-    (foldl_dep_good fieldDeps.flatten _ _ h0))).1
+    (foldl_dep_good (extTypes exts) _ _ (foldl_dep_good (extendees exts) _ _
+      (foldl_dep_good fieldDeps.flatten _ _ h0))))).1
 
 /-- **The file's own declarations come first, in flattened order** (enums, then messages): row `i` of `goTypes`
     is the i-th declaration, which is what makes `file_x_enumTypes[i]` / `file_x_msgTypes[i]` and the
     `&file_x_msgTypes[N]` of `slowProtoReflect` (C19_msgIndex_is_flatten_position) line up with it. Needs the
     declared full names to be distinct (protoc guarantees it). -/
 theorem C19_goTypes_start_with_declarations (enums msgs : List String) (fieldDeps : List (List String))
-    (methods : List (String × String)) (hd : (enums ++ msgs).Nodup) :
-    ∃ imported, (typeTables enums msgs fieldDeps methods).goTypes = enums ++ msgs ++ imported := by
+    (exts : List (String × Option String)) (methods : List (String × String)) (hd : (enums ++ msgs).Nodup) :
+    ∃ imported, (typeTables enums msgs fieldDeps exts methods).goTypes = enums ++ msgs ++ imported := by
   have e0 : ((enums ++ msgs).foldl TypeTab.decl {}).goTypes = enums ++ msgs := by
     have := foldl_decl_distinct (enums ++ msgs) {} (by simpa using hd)
     simpa using this
   obtain ⟨x1, h1⟩ := foldl_dep_prefix fieldDeps.flatten ((enums ++ msgs).foldl TypeTab.decl {})
-  obtain ⟨x2, h2⟩ := foldl_dep_prefix (methods.map (·.1)) (fieldDeps.flatten.foldl TypeTab.dep ((enums ++ msgs).foldl TypeTab.decl {}))
-  obtain ⟨x3, h3⟩ := foldl_dep_prefix (methods.map (·.2)) ((methods.map (·.1)).foldl TypeTab.dep (fieldDeps.flatten.foldl TypeTab.dep ((enums ++ msgs).foldl TypeTab.decl {})))
-  refine ⟨x1 ++ x2 ++ x3, ?_⟩
+  obtain ⟨x1a, h1a⟩ := foldl_dep_prefix (extendees exts) (fieldDeps.flatten.foldl TypeTab.dep ((enums ++ msgs).foldl TypeTab.decl {}))
+  obtain ⟨x1b, h1b⟩ := foldl_dep_prefix (extTypes exts) ((extendees exts).foldl TypeTab.dep
+    (fieldDeps.flatten.foldl TypeTab.dep ((enums ++ msgs).foldl TypeTab.decl {})))
+  obtain ⟨x2, h2⟩ := foldl_dep_prefix (methods.map (·.1)) ((extTypes exts).foldl TypeTab.dep ((extendees exts).foldl TypeTab.dep
+    (fieldDeps.flatten.foldl TypeTab.dep ((enums ++ msgs).foldl TypeTab.decl {}))))
+  obtain ⟨x3, h3⟩ := foldl_dep_prefix (methods.map (·.2)) ((methods.map (·.1)).foldl TypeTab.dep ((extTypes exts).foldl TypeTab.dep
+    ((extendees exts).foldl TypeTab.dep (fieldDeps.flatten.foldl TypeTab.dep ((enums ++ msgs).foldl TypeTab.decl {})))))
+  refine ⟨x1 ++ x1a ++ x1b ++ x2 ++ x3, ?_⟩
   show (List.foldl TypeTab.dep _ (methods.map (·.2))).goTypes = _
-  rw [h3, h2, h1, e0]
+  rw [h3, h2, h1b, h1a, h1, e0]
   simp [List.append_assoc]
 
 /-- Every row is a declaration of the file or the type of one of its fields / methods: nothing else gets in. -/
 theorem C19_goTypes_only_declared_or_used (enums msgs : List String) (fieldDeps : List (List String))
-    (methods : List (String × String)) (x : String)
-    (h : x ∈ (typeTables enums msgs fieldDeps methods).goTypes) :
-    x ∈ enums ++ msgs ∨ x ∈ allDeps fieldDeps methods := by
-  have h : x ∈ (List.foldl TypeTab.dep (List.foldl TypeTab.dep (List.foldl TypeTab.dep
-      (List.foldl TypeTab.decl {} (enums ++ msgs)) fieldDeps.flatten) (methods.map (·.1))) (methods.map (·.2))).goTypes := h
+    (exts : List (String × Option String)) (methods : List (String × String)) (x : String)
+    (h : x ∈ (typeTables enums msgs fieldDeps exts methods).goTypes) :
+    x ∈ enums ++ msgs ∨ x ∈ allDeps fieldDeps exts methods := by
+  have h : x ∈ (List.foldl TypeTab.dep (List.foldl TypeTab.dep (List.foldl TypeTab.dep (List.foldl TypeTab.dep
+      (List.foldl TypeTab.dep (List.foldl TypeTab.decl {} (enums ++ msgs)) fieldDeps.flatten) (extendees exts))
+      (extTypes exts)) (methods.map (·.1))) (methods.map (·.2))).goTypes := h
   have h3 := foldl_dep_mem (methods.map (·.2)) _ x h
   cases h3 with
   | inr h => exact Or.inr (by simp [allDeps, h])
@@ -73,8 +82,14 @@ theorem C19_goTypes_only_declared_or_used (enums msgs : List String) (fieldDeps 
     cases foldl_dep_mem (methods.map (·.1)) _ x h with
     | inr h => exact Or.inr (by simp [allDeps, h])
     | inl h =>
+    cases foldl_dep_mem (extTypes exts) _ x h with
+    | inr h => exact Or.inr (by simp only [allDeps, List.mem_append]; exact Or.inl (Or.inl (Or.inr h)))
+    | inl h =>
+    cases foldl_dep_mem (extendees exts) _ x h with
+    | inr h => exact Or.inr (by simp only [allDeps, List.mem_append]; exact Or.inl (Or.inl (Or.inl (Or.inr h))))
+    | inl h =>
       cases foldl_dep_mem fieldDeps.flatten _ x h with
-      | inr h => exact Or.inr (by simp only [allDeps, List.mem_append]; exact Or.inl (Or.inl h))
+      | inr h => exact Or.inr (by simp only [allDeps, List.mem_append]; exact Or.inl (Or.inl (Or.inl (Or.inl h))))
       | inl h =>
         left
         -- rows of the declaration pass are declarations
@@ -100,33 +115,48 @@ theorem C19_goTypes_only_declared_or_used (enums msgs : List String) (fieldDeps 
         | inr h => exact h
 
 /-- The five trailing offsets delimit the sections as `filetype.TypeBuilder` reads them: field type names occupy
-    `[0, F)`, the two extension sections are empty, method inputs `[F, F+M)`, method outputs `[F+M, F+2M)`. -/
-theorem C19_depIdx_offsets (enums msgs : List String) (fieldDeps : List (List String)) (methods : List (String × String)) :
-    (typeTables enums msgs fieldDeps methods).offsets =
-      [fieldDeps.flatten.length + methods.length, fieldDeps.flatten.length, fieldDeps.flatten.length,
+    `[0, F)`, extension extendees `[F, F+X)`, extension type names `[F+X, F+X+T)`, method inputs the next `M`
+    entries, method outputs the last `M`. -/
+theorem C19_depIdx_offsets (enums msgs : List String) (fieldDeps : List (List String)) (exts : List (String × Option String)) (methods : List (String × String)) :
+    (typeTables enums msgs fieldDeps exts methods).offsets =
+      [fieldDeps.flatten.length + exts.length + (extTypes exts).length + methods.length,
+       fieldDeps.flatten.length + exts.length + (extTypes exts).length,
+       fieldDeps.flatten.length + exts.length,
        fieldDeps.flatten.length, 0] ∧
-    (typeTables enums msgs fieldDeps methods).deps.length = fieldDeps.flatten.length + methods.length + methods.length := by
+    (typeTables enums msgs fieldDeps exts methods).deps.length =
+      fieldDeps.flatten.length + exts.length + (extTypes exts).length + methods.length + methods.length := by
   have h0 : TypeTab.Good ((enums ++ msgs).foldl TypeTab.decl {}) [] := by
     obtain ⟨hn, hd⟩ := foldl_decl_nodup (enums ++ msgs) {} (by simp)
     exact ⟨hn, by rw [hd]; rfl, fun k h => by simp at h⟩
   have h1 := foldl_dep_good fieldDeps.flatten _ _ h0
-  have h2 := foldl_dep_good (methods.map (·.1)) _ _ h1
+  have h1a := foldl_dep_good (extendees exts) _ _ h1
+  have h1b := foldl_dep_good (extTypes exts) _ _ h1a
+  have h2 := foldl_dep_good (methods.map (·.1)) _ _ h1b
   have h3 := foldl_dep_good (methods.map (·.2)) _ _ h2
   refine ⟨?_, ?_⟩
   · show [_, _, _, _, 0] = _
-    rw [h2.2.1, h1.2.1]; simp
+    rw [h2.2.1, h1b.2.1, h1a.2.1, h1.2.1]; simp [extendees, Nat.add_assoc]
   · show (List.foldl TypeTab.dep _ _).deps.length = _
-    rw [h3.2.1]; simp [Nat.add_assoc]
+    rw [h3.2.1]; simp [extendees, Nat.add_assoc]
 
 /-! ### non-vacuity: a file with an enum, three messages (one a map entry), a repeated self reference, an imported
     type used twice and a method -/
 
 example :
     typeTables ["p.E"] ["p.A", "p.A.MEntry", "p.B"]
-      [["p.B", "p.E", "p.A.MEntry", "q.X"], ["p.B"], ["p.A", "q.X", "p.E"]] [("p.A", "q.Y")] =
+      [["p.B", "p.E", "p.A.MEntry", "q.X"], ["p.B"], ["p.A", "q.X", "p.E"]] [] [("p.A", "q.Y")] =
     { goTypes := ["p.E", "p.A", "p.A.MEntry", "p.B", "q.X", "q.Y"],
       deps := [3, 0, 2, 4, 3, 1, 4, 0, 1, 5],
       offsets := [9, 8, 8, 8, 0] } := by decide
+
+/-- a file that declares extensions: two of descriptor.proto's FieldOptions (one enum typed), one of MessageOptions
+    that is message typed -/
+example :
+    typeTables ["p.E"] ["p.A"] [["p.E"]]
+      [("g.FieldOptions", none), ("g.MessageOptions", some "p.A"), ("g.FieldOptions", some "p.E")] [("p.A", "p.A")] =
+    { goTypes := ["p.E", "p.A", "g.FieldOptions", "g.MessageOptions"],
+      deps := [0, 2, 3, 2, 1, 0, 1, 1],
+      offsets := [7, 6, 4, 1, 0] } := by decide
 
 end Pulsar
 
